@@ -169,6 +169,19 @@ fn check_one(a: f64, p: f64, ctx: &mut Ctx) -> Result<(bool, Option<f64>), Failu
         Ok(r) => r,
         Err(m) => fail!("gamma-panic", "inverse_gamma_lr({a:e}, {p:e}, 50, 5.0) panicked: {m}"),
     };
+    // the routine is generic over the user's scalar: with a wider type it must return the same f64 quantile
+    {
+        use crate::scalars::dd::DD;
+        let wide = catch_unwind(AssertUnwindSafe(|| momtrop::gamma::inverse_gamma_lr(&DD::f(a), &DD::f(p), 50, &DD::f(5.0))));
+        let same = match (&wide, &res) {
+            (Ok(Ok(v)), QRes::Ok(w)) => v.hi.to_bits() == w.to_bits() && v.lo == 0.0,
+            (Ok(Err(_)), QRes::Err) => true,
+            _ => false,
+        };
+        if !same {
+            fail!("user-scalar-differs", "inverse_gamma_lr({a:e}, {p:e}, 50, 5.0) gives {res:?} with f64 but {:?} with a double-double scalar holding the same numbers", wide.map(|r| r.map(|v| (v.hi, v.lo)).map_err(|_| "GammaError")).map_err(|_| "panic"));
+        }
+    }
     let p_floor = pq(a, 1e-13).0;
     let required = p > 0.0 && p >= p_floor * (1.0 + 1e-9);
     match res {
